@@ -1866,6 +1866,51 @@ pub fn generate(rng: &mut Rng, tier: Tier, emit: &mut dyn FnMut(String)) {
             ("SCYLLA_RATE_LIMIT_ERROR".to_owned(), vec!["LWT_OPTIMIZATION_META_BIT_MASK=3".into()]),
             ("SCYLLA_LWT_ADD_METADATA_MARK".to_owned(), vec!["ERROR_CODE=4".into()]),
         ]));
+        // the sharding options `open_connection` reads from the same map (`ShardInfo::try_from`, then `shard_of`):
+        // every combination of boundary values incl. SCYLLA_SHARDING_IGNORE_MSB at and beyond 64, missing keys, empty
+        // value lists, a second value, a repeated key
+        {
+            let shards = ["0", "3", "4", "65535", "65536", "-1", "+2", "x", ""];
+            let nrs = ["0", "1", "4", "+4", "65535", "65536", "x", ""];
+            let msbs = ["0", "12", "63", "64", "65", "127", "128", "255", "256", "x", "", "+7", "-0"];
+            let three = |a: Vec<String>, b: Vec<String>, c: Vec<String>| -> Vec<(String, Vec<String>)> {
+                vec![("SCYLLA_SHARD".to_owned(), a), ("SCYLLA_NR_SHARDS".to_owned(), b), ("SCYLLA_SHARDING_IGNORE_MSB".to_owned(), c)]
+            };
+            for a in shards {
+                for b in nrs {
+                    for c in msbs {
+                        emit(body(&three(vec![a.into()], vec![b.into()], vec![c.into()])));
+                    }
+                }
+            }
+            for c in msbs {
+                for (a, b) in [("0", "1"), ("1", "2"), ("6", "7"), ("255", "256"), ("40000", "65535")] {
+                    emit(body(&three(vec![a.into()], vec![b.into()], vec![c.into()])));
+                }
+                // only the FIRST value counts; a repeated key: the last entry counts
+                emit(body(&three(vec!["1".into(), "x".into()], vec!["4".into(), "0".into()], vec![c.into(), "12".into()])));
+                let mut e = three(vec!["1".into()], vec!["4".into()], vec!["12".into()]);
+                e.push(("SCYLLA_SHARDING_IGNORE_MSB".to_owned(), vec![c.into()]));
+                emit(body(&e));
+            }
+            for mask in 0..8u8 {
+                // every subset of the three keys present; then present with an empty value list
+                let full = three(vec!["1".into()], vec!["4".into()], vec!["64".into()]);
+                let sub: Vec<(String, Vec<String>)> = full.iter().enumerate().filter(|(i, _)| mask >> i & 1 == 1).map(|(_, e)| e.clone()).collect();
+                emit(body(&sub));
+                let emptied: Vec<(String, Vec<String>)> = full.iter().enumerate().map(|(i, e)| if mask >> i & 1 == 1 { (e.0.clone(), vec![]) } else { e.clone() }).collect();
+                emit(body(&emptied));
+            }
+            emit(body(&[
+                ("SCYLLA_SHARD".to_owned(), vec!["2".into()]),
+                ("SCYLLA_NR_SHARDS".to_owned(), vec!["8".into()]),
+                ("SCYLLA_SHARDING_IGNORE_MSB".to_owned(), vec!["200".into()]),
+                ("SCYLLA_SHARD_AWARE_PORT".to_owned(), vec!["19042".into()]),
+                ("SCYLLA_PARTITIONER".to_owned(), vec!["org.apache.cassandra.dht.Murmur3Partitioner".into()]),
+                ("SCYLLA_SHARDING_ALGORITHM".to_owned(), vec!["biased-token-round-robin".into()]),
+                ("SCYLLA_RATE_LIMIT_ERROR".to_owned(), vec!["ERROR_CODE=61440".into()]),
+            ]));
+        }
         // random structured maps, and every truncation of one
         for i in 0..300 * scale {
             let n = rng.below(5) as usize;
@@ -2136,6 +2181,8 @@ pub fn generate(rng: &mut Rng, tier: Tier, emit: &mut dyn FnMut(String)) {
         emit(format!("p string {}", hex(&b.out)));
     }
     let _ = opt_hex(None);
+    // the connection reader's dispatch on the header's stream field (c08reader.rs)
+    crate::c08reader::generate(rng, tier, emit);
 }
 
 // ---------------------------------------------------------------------------------------------
